@@ -897,7 +897,17 @@ class Eval:
                 self.returns = saved
                 self.loops.pop()
                 return ("upd", ("acc", ("call", "Vec::new", ())), "push", (val,))
-        if m in CLOSURE_LOOPS and self.effect_calls and e["args"] and all(strip(a).get("k") == "Closure" for a in e["args"]) and "Iterator::" in (callee_generic(e) or ""):
+        if m in ("fold", "try_fold") and self.effect_calls and len(e["args"]) == 2 and strip(e["args"][1]).get("k") == "Closure" and "Iterator::" in (callee_generic(e) or ""):
+            # effects recorded inside `it.fold(init, |acc, x| ..)` / try_fold happen once per element of `it`, on the accumulator so far
+            mark = len(self.out)
+            self.loops.append(recv)
+            args = [recv] + [self.expr(a, env, depth) for a in e["args"]]
+            self.loops.pop()
+            cl = args[2]
+            if cl[0] == "closure" and len(cl[1]) == 2 and all("/" not in n_ for n_ in cl[1]):
+                for i_ in range(mark, len(self.out)):
+                    self.out[i_] = subst(self.out[i_], {cl[1][1]: ("each", recv), cl[1][0]: ("acc", args[1])})
+        elif m in CLOSURE_LOOPS and self.effect_calls and e["args"] and all(strip(a).get("k") == "Closure" for a in e["args"]) and "Iterator::" in (callee_generic(e) or ""):
             # effects recorded inside `it.map(|x| ..)` / filter / flat_map / inspect happen once per element of `it`
             mark = len(self.out)
             self.loops.append(recv)
